@@ -174,7 +174,7 @@ func main() {
 func newLog(r *rand.Rand) *gen.Log {
 	u := gen.NewUniverse(r, gen.Opts{NLogs: 1, MaxSize: 64, Branches: 2})
 	l := u.Logs[0]
-	l.Branches[1] = &reftree.Tree{Seed: l.Branches[0].Seed, TagA: 1, TagB: 9, Fork: 0} // branch 1 shares no leaf with branch 0
+	l.ReplaceBranch(1, &reftree.Tree{Seed: l.Branches[0].Seed, TagA: 1, TagB: 9, Fork: 0}) // branch 1 shares no leaf with branch 0
 	return l
 }
 
@@ -454,7 +454,7 @@ func pairReal(run *ev.Run, unit int64, r *rand.Rand, dir string, ws, ls uint64, 
 	}
 	u := gen.NewUniverse(r, gen.Opts{NLogs: 1, MaxSize: 64, Branches: 2})
 	l := u.Logs[0]
-	l.Branches[1] = &reftree.Tree{Seed: l.Branches[0].Seed, TagA: 1, TagB: 9, Fork: 0}
+	l.ReplaceBranch(1, &reftree.Tree{Seed: l.Branches[0].Seed, TagA: 1, TagB: 9, Fork: 0})
 	st, err := wit.NewStore(wit.DrawStore(r), dir)
 	if err != nil {
 		run.Inconclusive(err.Error())
